@@ -136,7 +136,7 @@ def main(argv) -> int:
             for s2, d2 in mod.check_case(small):
                 if s2 == sig:
                     detail = d2
-        except Exception:
+        except (Exception, core.HarnessError):
             small = case
         path = core.write_replay(pid, sig, small, detail)
         print("VIOLATION property=%s replay=%s" % (pid, path))
